@@ -489,6 +489,21 @@ def gen_diff(rng):
     ltext, lsuf = render_doc(rng, lhs)
     rtext, rsuf = render_doc(rng, rhs)
     opts = []
+    multi = None
+    if rng.random() < 0.12:
+        # the compared documents sit inside multi-document files
+        lpos = rng.randrange(3)
+        rpos = rng.randrange(2)
+        filler = "---\nfiller: %d\n"
+        ltext = "".join(
+            gen_docs.to_yaml(lhs, start=True) if i == lpos else filler % i
+            for i in range(3))
+        rtext = "".join(
+            gen_docs.to_yaml(rhs, start=True) if i == rpos else filler % i
+            for i in range(2))
+        lsuf = rsuf = ".yaml"
+        opts += ["-L", str(lpos), "-R", str(rpos)]
+        multi = (lpos, rpos)
     roll = rng.random()
     if roll < 0.15:
         opts.append("-q")
@@ -516,12 +531,20 @@ def gen_diff(rng):
         opts += ["-c", W + "diff.ini"]
     return {"tool": "yaml-diff", "opts": opts, "lhs": ltext, "rhs": rtext,
             "lname": W + "lhs" + lsuf, "rname": W + "rhs" + rsuf,
-            "edits": edits, "files": files}
+            "edits": edits, "files": files, "multi": multi}
 
 
 def expect_diff(scn):
-    ldoc, lok = strict_load(scn["lhs"])
-    rdoc, rok = strict_load(scn["rhs"])
+    if scn.get("multi"):
+        ldocs, lok = strict_load_all(scn["lhs"])
+        rdocs, rok = strict_load_all(scn["rhs"])
+        if not (lok and rok):
+            return None
+        ldoc = ldocs[scn["multi"][0]]
+        rdoc = rdocs[scn["multi"][1]]
+    else:
+        ldoc, lok = strict_load(scn["lhs"])
+        rdoc, rok = strict_load(scn["rhs"])
     if not (lok and rok):
         return None
     equal = orderless(snapshot.typed_merged(ldoc)) == \
@@ -634,6 +657,9 @@ def gen_paths(rng):
         text = "".join(gen_docs.to_yaml(doc_for(rng, sets=False),
                                         start=True)
                        for _ in range(ndocs))
+        if rng.random() < 0.1:
+            text += gen_args.INVALID_DOCS[rng.choice(
+                sorted(gen_args.INVALID_DOCS))]
         name = W + "p%d.yaml" % idx
         files[name] = text
         names.append(name)
@@ -1374,6 +1400,15 @@ def build_runs(rng, scn, knobs):
         runs["tty-nofile"] = (base_recipe(tool, list(scn["opts"]), {},
                                           stdin="", tty=True, knobs=knobs),
                               {})
+        # -S: a waiting (and broken) stdin document must be ignored
+        runs["nostdin"] = (base_recipe(
+            tool, ["-S"] + scn["opts"] + names, files,
+            stdin="this: [is not, valid", tty=False, chunks=chunks,
+            knobs=knobs),
+            {"names": names, "stdin": None, "implicit": False})
+        runs["nostdin-nofile"] = (base_recipe(
+            tool, ["-S"] + list(scn["opts"]), {}, stdin="a: 1\n", tty=False,
+            chunks=chunks, knobs=knobs), {})
     elif tool == "yaml-merge":
         names = scn["names"]
         files = scn["files"]
@@ -1474,7 +1509,7 @@ def judge_run(scn, chan, recipe, ctx, res, cache):
         out.append("%s:read-from-a-terminal-with-no-input" % tool[5:])
     if res.traceback and not res.exit:
         out.append("%s:traceback-with-exit-0" % tool[5:])
-    if chan == "tty-nofile":
+    if chan in ("tty-nofile", "nostdin-nofile"):
         if res.exit == 0:
             out.append("%s:no-input-but-exit-0" % tool[5:])
         return out
